@@ -3,7 +3,7 @@
    smart constructors; matches_spec : matches r s = true <-> L r s. *)
 From Coq Require Import List NArith Bool Lia.
 Import ListNotations.
-Open Scope N_scope.
+Local Open Scope N_scope.
 
 Definition cls := list (N * N).
 
